@@ -346,7 +346,11 @@ def pieceJson : Piece → Json
   | .text c => Json.arr #[jstr "t", jstr (String.singleton c)]
   | .raise => Json.arr #[jstr "raise"]
   | .hole p sl fm => Json.arr #[jstr "h", jstr (String.ofList p),
-      jopt (jarr (fun (x : Option Nat × Option Nat) => Json.arr #[jopt jnat x.1, jopt jnat x.2])) sl,
+      -- index n -> [n, n]; range a:b -> [a, b]; the range n:n -> [n, n, "range"] (kept apart from the index)
+      jopt (jarr (fun (x : SliceEntry) => match x with
+        | .idx n => Json.arr #[jnat n, jnat n]
+        | .range a b => if a = b ∧ a.isSome then Json.arr #[jopt jnat a, jopt jnat b, jstr "range"]
+                        else Json.arr #[jopt jnat a, jopt jnat b])) sl,
       jopt (fun f => jstr (String.ofList f)) fm]
 
 def tplHandle (j : Json) : Except String Json := do
